@@ -450,9 +450,32 @@ def oracle_c02(plan, obs):
                                     f"rowwise too_large: returned {obs['n']}@{obs['h']}, want {evs[0]['n']}@{hmax}",
                                     site="ROWWISE:too_large")
             return "too_large" + ("_cont" if cont else "_raise")
-    if method in ("BIRECTANGLE", "BIZONEDRECTANGLE") and mode == "monotone" and oc == "design" and cont:
-        # nested searches: an unmet-but-continued design is at a height bound and within the cap (checked above)
-        pass
+    if method in ("BIRECTANGLE", "BIZONEDRECTANGLE", "BIRECTANGLECONSTRAINED") and mode == "monotone":
+        # nested searches under a monotone evaluator: 'largest allowed candidate' is read as 'at maximum height and within
+        # the cap' (which list the nested search ends in is not part of the statement)
+        evs = _evals(obs)
+        evs_max = _evals(obs, hmax)
+        if len(evs) >= 3 and evs[0]["h"] == hmin:
+            too_large = all(e["e"] > 0 for e in evs)
+            too_small = all(e["e"] < 0 for e in evs) and evs[0]["e"] < 0
+            if too_large or too_small:
+                which = "too_large" if too_large else "too_small"
+                if not cont and oc != "ValueError":
+                    raise Violation("C02", "unmet_not_raised", f"{which} ({method}): every evaluation says so, policy off, but "
+                                                               f"outcome={oc}", site=f"{method}:{which}")
+                if cont:
+                    if oc != "design":
+                        raise Violation("C02", "unmet_continue_raised", f"{which} ({method}): policy on but outcome={oc} "
+                                                                        f"({obs.get('exc_msg')})", site=f"{method}:{which}")
+                    want_h = hmax if too_large else hmin
+                    if obs["h"] != want_h:
+                        raise Violation("C02", "unmet_continue_wrong_pick", f"{which} ({method}): returned {obs['n']}@{obs['h']}, "
+                                                                            f"want height {want_h}", site=f"{method}:{which}")
+                    if too_small and obs["n"] != min(e["n"] for e in evs):
+                        raise Violation("C02", "unmet_continue_wrong_pick", f"too_small ({method}): returned {obs['n']} boreholes, "
+                                                                            f"smallest evaluated has {min(e['n'] for e in evs)}",
+                                        site=f"{method}:too_small")
+                return which + ("_cont" if cont else "_raise")
     return oc
 
 
